@@ -350,10 +350,14 @@ func (sc *scn) scenario() *qx.Scenario {
 		// every generation handed out gets its first heartbeat one interval after the join completed, unless it ended before
 		// (d) LeaveGroup on Close with the member id the application saw last
 		if closed && st == qx.StDone {
+			// the client's current member id: the one of the last generation handed out, unless a later
+			// error made the group give the membership up (it then tries to leave and forgets the id)
 			lastMember := ""
 			for _, n := range nexts {
 				if n.Member != "" {
 					lastMember = n.Member
+				} else if n.Err != "" && !strings.Contains(n.Err, "closed") {
+					lastMember = ""
 				}
 			}
 			left := false
